@@ -431,8 +431,13 @@ def _names_foreign_mailbox(x):
 def mon_C08(hist, ctxs, kf):
     v = []
     nontrivial = 0
+    closed_ledger = defaultdict(set)     # (app, mailbox) -> sides that were answered `closed` for this incarnation
     for x in ctxs:
+        # a mailbox that has no row any more starts a new incarnation
+        live = set((r[0], r[1]) for r in x.post["chan"]["mb"])
         if x.kind != "cmd" or x.crash:
+            for key in [k for k in closed_ledger if k not in live]:
+                del closed_ledger[key]
             continue      # (a crash event's post-state includes the restart's sweep)
         pre, post = x.pre["chan"], x.post["chan"]
         closer = None
@@ -477,6 +482,18 @@ def mon_C08(hist, ctxs, kf):
                     if not srow or srow[0][1]:
                         v.append((x.i, "close of %s/%s by side %s answered closed, but the mailbox is still there and the side is %s"
                                   % (unhex(a), unhex(m), unhex(side), "still recorded as having it open" if srow else "not recorded at all")))
+                    closed_ledger[(a, m)].add(side)
+                    sides_of_m = set(s[2] for s in post["mbs"] if s[0] == m)
+                    if srow and not srow[0][1] and sides_of_m and sides_of_m <= closed_ledger[(a, m)]:
+                        # every side that ever joined this mailbox has been answered `closed` (a closed side never
+                        # becomes open again -- whatever it re-sends): the last open side has closed
+                        if any(s[0] == m and s[1] for s in post["mbs"]):
+                            v.append((x.i, "close of %s/%s by side %s answered closed; every side of the mailbox (%s) has now been "
+                                      "answered `closed`, yet the mailbox is still there with side(s) %s recorded as open again"
+                                      % (unhex(a), unhex(m), unhex(side), sorted(map(unhex, sides_of_m)),
+                                         sorted(unhex(s[2]) for s in post["mbs"] if s[0] == m and s[1]))))
+                    if not srow or srow[0][1]:
+                        pass
                     elif not any(s[0] == m and s[1] for s in post["mbs"]):
                         # when the last open side closes, the mailbox goes -- with its messages, side records and nameplate
                         v.append((x.i, "close of %s/%s by side %s answered closed and no side has the mailbox open any more, but the "
@@ -495,6 +512,8 @@ def mon_C08(hist, ctxs, kf):
             if any(q[1] == m for q in post["msg"]) or any(s[0] == m for s in post["mbs"]) \
                or any(n[3] == m for n in post["np"]):
                 v.append((x.i, "mailbox %s deleted but rows referring to it remain" % unhex(m)))
+        for key in [k for k in closed_ledger if k not in live]:
+            del closed_ledger[key]
         # subscriptions of others survive a close that does not delete the mailbox
         for c, hold in x.holds_pre.items():
             if c != x.c and hold[1] in post_mb and c in x.bound_post and x.holds_post.get(c) != hold:
